@@ -1232,7 +1232,7 @@ func run(sc *scenario, out *bufio.Writer) {
 		}
 		sb.WriteString(" | ")
 		tmu.Lock()
-		sb.WriteString(renderEvents(evs, tickAt, sc.wire > 0))
+		sb.WriteString(renderEvents(evs, tickAt))
 		tmu.Unlock()
 		sb.WriteString("\t")
 		sort.Slice(results, func(i, j int) bool { return results[i].call < results[j].call })
@@ -1621,7 +1621,7 @@ func waitEvent(kind string, max time.Duration) bool {
 
 // renderEvents renames the recorder's object ids per kind to creation order (a freed object's address may be
 // reused by a later one: ids are bound at the creating event) and joins the events with ';'.
-func renderEvents(evs []kafka.VerifEvent, tickAt map[int]int64, wire bool) string {
+func renderEvents(evs []kafka.VerifEvent, tickAt map[int]int64) string {
 	pw, q, bt := map[string]string{}, map[string]string{}, map[string]string{}
 	ren := func(m map[string]string, pre, raw string, create bool) string {
 		if raw == "nil" {
@@ -1671,27 +1671,6 @@ func renderEvents(evs []kafka.VerifEvent, tickAt map[int]int64, wire bool) strin
 			a[0] = ren(q, "q", a[0], false)
 		}
 		parts = append(parts, e.Kind+" "+strings.Join(a, " "))
-	}
-	if wire {
-		// over the real Transport an attempt can end with an error the hook cannot name ("other": e.g. the connection's
-		// own i/o timeout racing the context deadline); whether isTemporary() holds for it is not visible in the
-		// trace.  When the Writer went on to retry the batch, the error is recorded as a temporary one.
-		for i, p := range parts {
-			f := strings.Fields(p)
-			if len(f) == 5 && f[0] == "PW.AttemptDone" && f[4] == "other" {
-				k, _ := strconv.Atoi(f[3])
-				want := "PW.Attempt " + f[1] + " " + f[2] + " " + strconv.Itoa(k+1)
-				for _, q := range parts[i+1:] {
-					if q == want {
-						parts[i] = strings.Join(f[:4], " ") + " othertmp"
-						break
-					}
-					if strings.HasPrefix(q, "PW.Attempt "+f[1]+" ") || strings.HasPrefix(q, "B.Complete "+f[1]+" "+f[2]+" ") {
-						break
-					}
-				}
-			}
-		}
 	}
 	return strings.Join(parts, ";")
 }
